@@ -176,6 +176,11 @@ class CGenerator:
             case _:
                 return self.visit(n)
 
+    def _visit_const_expr(self, n: c_ast.Node) -> str:
+        # A constant expression is parsed as a conditional expression: a comma
+        # or assignment expression can only appear there in parentheses.
+        return self._parenthesize_if(n, lambda d: isinstance(d, c_ast.Assignment))
+
     def visit_Decl(self, n: c_ast.Decl, no_type: bool = False) -> str:
         # no_type is used when a Decl is part of a DeclList, where the type is
         # explicitly only for the first declaration in a list.
@@ -188,7 +193,7 @@ class CGenerator:
             else self._generate_decl(n)
         )
         if n.bitsize:
-            s += " : " + self.visit(n.bitsize)
+            s += " : " + self._visit_const_expr(n.bitsize)
         if n.init:
             s += " = " + self._visit_expr(n.init)
         return s
@@ -240,7 +245,7 @@ class CGenerator:
             return "{indent}{name} = {value},\n".format(
                 indent=self._make_indent(),
                 name=n.name,
-                value=self.visit(n.value),
+                value=self._visit_const_expr(n.value),
             )
 
     def visit_FuncDef(self, n: c_ast.FuncDef) -> str:
@@ -345,7 +350,7 @@ class CGenerator:
 
     def visit_StaticAssert(self, n: c_ast.StaticAssert) -> str:
         s = "_Static_assert("
-        s += self.visit(n.cond)
+        s += self._visit_const_expr(n.cond)
         if n.message:
             s += ","
             s += self.visit(n.message)
@@ -358,7 +363,7 @@ class CGenerator:
         return s
 
     def visit_Case(self, n: c_ast.Case) -> str:
-        s = "case " + self.visit(n.expr) + ":\n"
+        s = "case " + self._visit_const_expr(n.expr) + ":\n"
         for stmt in n.stmts:
             s += self._generate_stmt(stmt, add_indent=True)
         return s
@@ -393,7 +398,7 @@ class CGenerator:
             if isinstance(name, c_ast.ID):
                 s += "." + name.name
             else:
-                s += "[" + self.visit(name) + "]"
+                s += "[" + self._visit_const_expr(name) + "]"
         s += " = " + self._visit_expr(n.expr)
         return s
 
@@ -533,7 +538,7 @@ class CGenerator:
                             if modifier.dim_quals:
                                 nstr += " ".join(modifier.dim_quals) + " "
                             if modifier.dim is not None:
-                                nstr += self.visit(modifier.dim)
+                                nstr += self._visit_expr(modifier.dim)
                             nstr += "]"
                         case c_ast.FuncDecl():
                             if i != 0 and isinstance(modifiers[i - 1], c_ast.PtrDecl):
